@@ -207,7 +207,7 @@ def intern_solvers(prog):
             continue
         if 'Vec<[f64; 6]>' not in b.local_ty(0):
             continue
-        n_atan2 = sum(1 for _, t in b.calls() if cname(callee_name(t)) == 'f64::atan2')
+        n_atan2 = sum(1 for bb in [b] + [prog.bodies[c] for c in prog.closures_of.get(b.path, [])] for _, t in bb.calls() if cname(callee_name(t)) == 'f64::atan2')
         if n_atan2 < 6:
             continue
         if b.arg_count == 2:
